@@ -80,6 +80,7 @@ def optimize_prec_assignment(model: MPS,
                 config_cost = _compute_cost(model, layer, w_theta_alpha_array, cost_fn_map, lname, node)
                 assert config_cost == base_cost, "The cost of the layer is not consistent with the original configuration"
 
+                n_channels = layer.w_mps_quantizer.theta_alpha.shape[1]
                 sorted_indexes = torch.argsort(layer.w_mps_quantizer.precision)
                 sorted_precisions = [layer.w_mps_quantizer.precision[i] for i in sorted_indexes]
                 inverse_indexes = torch.argsort(sorted_indexes)
@@ -94,7 +95,9 @@ def optimize_prec_assignment(model: MPS,
                         continue
                     for j in range(i + 1, len(sorted_precisions)):
                         w_theta_alpha_array_tmp = [copy.deepcopy(w_theta_alpha_array)[i] for i in sorted_indexes]
-                        while w_theta_alpha_array_tmp[i] > 0:
+                        # move one channel at a time: iterate on the (integer) number of channels,
+                        # since the repeated float updates below may never reach exactly zero
+                        for _ in range(int(torch.round(w_theta_alpha_array_tmp[i] * n_channels))):
                             w_theta_alpha_array_tmp[i] -= (1. / layer.w_mps_quantizer.theta_alpha.shape[1])
                             w_theta_alpha_array_tmp[j] += (1. / layer.w_mps_quantizer.theta_alpha.shape[1])
                             # `_compute_cost` expects the coefficients in the original order of the precisions
@@ -120,7 +123,9 @@ def optimize_prec_assignment(model: MPS,
                     if sorted_precisions[i] == 0:
                         continue
                     for j in range(i + 1, len(sorted_precisions)):
-                        while w_theta_alpha_array_tmp[i] > 0:
+                        # move one channel at a time: iterate on the (integer) number of channels,
+                        # since the repeated float updates below may never reach exactly zero
+                        for _ in range(int(torch.round(w_theta_alpha_array_tmp[i] * n_channels))):
                             w_theta_alpha_array_tmp[i] -= (1. / layer.w_mps_quantizer.theta_alpha.shape[1])
                             w_theta_alpha_array_tmp[j] += (1. / layer.w_mps_quantizer.theta_alpha.shape[1])
                             # `_compute_cost` expects the coefficients in the original order of the precisions
@@ -141,7 +146,7 @@ def optimize_prec_assignment(model: MPS,
 
                 # Sort the best configuration according to the original order of the precisions
                 best_theta_alpha_array = torch.tensor([best_cost_w_theta_alpha_array[i] for i in inverse_indexes])
-                best_theta_alpha_array = torch.mul(best_theta_alpha_array, layer.w_mps_quantizer.theta_alpha.shape[1])
+                best_theta_alpha_array = torch.round(torch.mul(best_theta_alpha_array, n_channels))
 
                 # Update the layer with the best configuration.
                 # Modify only the alpha parameter of each layer, and not the theta_alpha, to avoid
